@@ -186,7 +186,8 @@ func vspecAckType(s message.Type) bool {
 //@        && fresh(arr(vdefView(aq, old(aq.count)).Msgbuf))
 //@   ensures[C13:bufs] preservedarrays(aq.ring[0].Msgbuf)
 //@   ensures[C02:keepid] old(message.vspecPacketID(ifaceval(msg, *message.header).packetID)) != 0 || !old(ifaceval(msg, *message.header).dirty) ==> message.vspecPacketID(ifaceval(msg, *message.header).packetID) == old(message.vspecPacketID(ifaceval(msg, *message.header).packetID))
-//@   modifies aq.size, aq.mask, aq.ring, aq.head, aq.tail, aq.count, aq.emap, aq.ping, elems(aq.ring), mapof(aq.emap), ifaceval(msg, *message.header).remlen, ifaceval(msg, *message.header).dirty, ifaceval(msg, *message.header).packetID, message.gPacketID, heap("GF.clock"), heap("GF.mlockedAt")
+//@   ensures[ghostdef-wait] gfield(aq, "nwait") == old(gfield(aq, "nwait"))+1 && gfield(aq, "lastwait") == ifaceval(msg, *message.header)
+//@   modifies aq.size, aq.mask, aq.ring, aq.head, aq.tail, aq.count, aq.emap, aq.ping, elems(aq.ring), mapof(aq.emap), ifaceval(msg, *message.header).remlen, ifaceval(msg, *message.header).dirty, ifaceval(msg, *message.header).packetID, message.gPacketID, heap("GF.clock"), heap("GF.mlockedAt"), gfield(aq, "nwait"), gfield(aq, "lastwait")
 
 // Acked: hands back the answered ping (if any) followed by the maximal prefix of the FIFO whose entries have reached
 // a terminal state, and removes exactly those. P = 1 if a ping answer is returned first, else 0.
